@@ -48,7 +48,7 @@ def strategy_(draw, tier):
     else:
         lines = [conv.stable_line(g["nodes"], r) for r in recs]
     return {"gfa": gen_graph.gfa_text(g, with_seq=False, order_seed=draw(st.integers(0, 99))),
-            "gaf": lines, "dir": direction}
+            "gaf": lines, "dir": direction, "via": draw(st.sampled_from(["api", "api", "cli", "cli_stdout"]))}
 
 
 def strategy(tier):
@@ -69,14 +69,34 @@ def check_columns(inp, out, what):
         core.check(ta == tb, "%s: optional fields changed %s -> %s in %s", what, ta, tb, fa[0])
 
 
+def convert_bgzf(case, lines, fmt):
+    """whole-file conversion of a BGZF-compressed GAF (block cuts from the case)"""
+    from vf import bgzf, idx
+
+    with core.workdir() as d:
+        core.write_text(d + "/g.gfa", case["gfa"])
+        bgzf.write_bgzf(d + "/in.gaf.gz", "".join(l + "\n" for l in lines).encode(), case["bgzf"]["cuts"])
+        return idx.run_view(d, d + "/in.gaf.gz", d + "/g.gfa", d + "/out.gaf", fmt=fmt)
+
+
 def run_case(case):
     nodes, _ = models.nodes_from_gfa_text(case["gfa"])
     first, second = ("stable", "unstable") if case["dir"] == "u2s2u" else ("unstable", "stable")
     inp = case["gaf"]
-    r1, mid = conv.view_convert(case["gfa"], inp, first)
+    if case.get("bgzf"):
+        r1, mid = convert_bgzf(case, inp, first)
+        core.check(r1[0] == "ok", "view --format %s on the BGZF file failed: %s", first, r1)
+        check_columns(inp, mid, "to " + first + " (BGZF input)")
+        r2, back = convert_bgzf(case, mid, second)
+        core.check(r2[0] == "ok", "view --format %s (second leg, BGZF input) failed: %s", second, r2)
+        check_columns(mid, back, "back to " + second + " (BGZF input)")
+        for a, m, b in zip(inp, mid, back):
+            core.check(a == b, "round trip %s (BGZF input) does not reproduce the record:\n in  %r\n out %r", case["dir"], a[:200], b[:200])
+        return core.Result(True, ["large_bgzf_file", case["dir"]])
+    r1, mid = conv.view_convert(case["gfa"], inp, first, via=case.get("via", "api"))
     core.check(r1[0] == "ok", "view --format %s failed: %s", first, r1)
     check_columns(inp, mid, "to " + first)
-    r2, back = conv.view_convert(case["gfa"], mid, second)
+    r2, back = conv.view_convert(case["gfa"], mid, second, via=case.get("via", "api"))
     core.check(r2[0] == "ok", "view --format %s (second leg) failed: %s on %r", second, r2, mid)
     check_columns(mid, back, "back to " + second)
     for a, m, b in zip(inp, mid, back):
@@ -93,3 +113,21 @@ def run_case(case):
     if any(n.startswith("s") and n[1:].isdigit() and int(n[1:]) > 20000 for n in nodes):
         classes.add("real_graph_window")
     return core.Result(len(inp) >= 2 and interesting >= 1, sorted(classes))
+
+
+def enumerations(tier, shard, nshards):
+    if shard != 0:
+        return
+
+    def gen():
+        from vf import idx
+
+        # 1300 records of exactly 128 bytes: records end on every 64 KiB boundary of the uncompressed stream
+        for stable, n in ((False, 1300), (True, 700)):
+            g, case = idx.big_file_case(41, n, stable, line_len=128 if not stable else 256, block=65280, canonical=True)
+            canon = []
+            for l in case["gaf"]:
+                canon.append(l)
+            yield {"gfa": case["gfa"], "gaf": canon, "dir": "s2u2s" if stable else "u2s2u", "bgzf": case["bgzf"]}
+
+    yield ("large BGZF files whose records end exactly on 64 KiB boundaries (1300 x 128 B unstable, 700 x 256 B stable)", gen(), True)
